@@ -625,7 +625,7 @@ class PrivateKey:
     def deterministic_k(self, z):
         k = b"\x00" * 32
         v = b"\x01" * 32
-        if z > N:
+        if z >= N:
             z -= N
         z_bytes = int_to_big_endian(z, 32)
         secret_bytes = int_to_big_endian(self.secret, 32)
